@@ -69,7 +69,7 @@ def r1_pipeline(c):
     c.check("C01.R1", same, repo.loc(m, pp), "_diff_and_patch/rb", "make_diff and patch_from_pre do not receive the same rulebook object",
             key_text="same-rb")
     hw = b.get("hw")
-    c.check("C01.R1", hw is not None and norm(hw) in ("device.hw",), repo.loc(m, pp), "_diff_and_patch/hw",
+    c.check("C01.R1", hw is not None and norm(pv.resolve_alias(hw)) in ("device.hw",), repo.loc(m, pp), "_diff_and_patch/hw",
             "patch_from_pre does not receive the device's hw", key_text="hw")
     # patch_from_pre body
     c.count("functions")
@@ -321,29 +321,46 @@ def r5_disorder(c):
             loop = st
     if loop is None:
         raise AnchorError("C01.R5: loop over new not found in base_diff")
-    gm = GuardMap(fn)
-    added = [n for n in walk_no_nested(loop) if isinstance(n, ast.Assign) and op_const(n.value) == "ADDED"]
-    moved_tests = []
-    for n in walk_no_nested(loop):
-        if isinstance(n, ast.If):
-            assigns_moved = any(isinstance(x, ast.Assign) and any(op_const(l) == "MOVED" for l in ast.walk(x.value)) for x in n.body)
-            if assigns_moved:
-                moved_tests.append(n)
-    if len(added) != 1 or not moved_tests:
-        raise AnchorError("C01.R5: ADDED assignment / MOVED branch not found in base_diff")
-    flags = {x.id for x in ast.walk(moved_tests[0].test) if isinstance(x, ast.Name)} - {"row", "index", "old", "new"}
-    flags = {f for f in flags if any(isinstance(n, ast.Assign) and isinstance(n.targets[0], ast.Name) and n.targets[0].id == f
-                                     and isinstance(n.value, ast.Constant) and n.value.value is True for n in walk_no_nested(loop))}
+    from sa import symexec
+    # the disorder flag: a local set to True inside the loop and initialised False before it
+    flags = {n.targets[0].id for n in walk_no_nested(loop) if isinstance(n, ast.Assign) and isinstance(n.targets[0], ast.Name) and isinstance(n.value, ast.Constant) and n.value.value is True}
+    flags = {f for f in flags if any(isinstance(n, ast.Assign) and isinstance(n.targets[0], ast.Name) and n.targets[0].id == f and isinstance(n.value, ast.Constant)
+                                     and n.value.value is False and not any(x is n for x in ast.walk(loop)) for n in walk_no_nested(fn))}
     if not flags:
-        raise AnchorError("C01.R5: no boolean disorder flag is read by the MOVED test")
+        raise AnchorError("C01.R5: no boolean disorder flag (False before the loop over new, True inside it) found in base_diff")
     flag = sorted(flags)[0]
-    blk = added[0]._parent
-    body = blk.body if added[0] in getattr(blk, "body", []) else getattr(blk, "orelse", [])
-    ok = any(isinstance(n, ast.Assign) and isinstance(n.targets[0], ast.Name) and n.targets[0].id == flag and isinstance(n.value, ast.Constant)
-             and n.value.value is True for n in body)
-    c.check("C01.R5", ok, repo.loc(m, added[0]), "base_diff/added-raises-disorder",
+    # which local carries the op of the item built in this iteration
+    items = [x for x in calls_in(loop) if call_name(x) == "DiffItem"]
+    opvar = None
+    for it in items:
+        e = kwarg(it, "op", 0)
+        if isinstance(e, ast.Name):
+            opvar = e.id
+    if opvar is None:
+        raise AnchorError("C01.R5: ADDED assignment / MOVED branch not found in base_diff")
+    n_added = n_moved = 0
+    bad = None
+    for p_ in symexec.paths(loop.body):
+        v = p_.env.get(opvar)
+        if v is None:
+            continue
+        alts = [v.body, v.orelse] if isinstance(v, ast.IfExp) else [v]
+        raised = isinstance(p_.env.get(flag), ast.Constant) and p_.env[flag].value is True
+        if any(op_const(a_) == "MOVED" for a_ in alts):
+            n_moved += 1
+        if any(op_const(a_) == "ADDED" for a_ in alts):
+            n_added += 1
+            if not raised:
+                bad = p_
+    if not n_added or not n_moved:
+        raise AnchorError("C01.R5: ADDED assignment / MOVED branch not found in base_diff")
+    at = repo.loc(m, loop)
+    c.check("C01.R5", bad is None, at, "base_diff/added-raises-disorder",
             f"the ADDED branch does not set `{flag} = True`: rows after a row replaced in place keep their op and are not re-created behind the new row",
             key_text="added-disorder")
+    # the MOVED test reads the flag
+    reads = any(isinstance(x, ast.Name) and x.id == flag for n in walk_no_nested(loop) if isinstance(n, (ast.If, ast.IfExp)) for x in ast.walk(n.test))
+    c.check("C01.R5", reads, at, "base_diff/disorder-read", f"`{flag}` is never read by the test that labels rows MOVED", key_text="disorder-read")
     # the flag is initialised False before the loop and never reset inside it
     resets = [n for n in walk_no_nested(loop) if isinstance(n, ast.Assign) and isinstance(n.targets[0], ast.Name) and n.targets[0].id == flag
               and isinstance(n.value, ast.Constant) and n.value.value is False]
